@@ -50,6 +50,10 @@ def schema_of(kind):
         return pa.schema([('id', pa.int64())])
     if kind == 'single_str':
         return pa.schema([('id', pa.string())])
+    if kind == 'names':
+        # column names as a csv header gives them: blanks, punctuation, names that differ by such a character only
+        return pa.schema([('id', pa.int64()), ('unit price', pa.float64()), ('unit_price', pa.float64()), ('a,b', pa.string()),
+                          ('x=y', pa.string()), ('(n)', pa.int64()), ('tab\tname', pa.string())])
     fields = [('id', pa.int64()), ('s', pa.string()), ('f', pa.float64())]
     if kind == 'nested':
         fields += [('st', pa.struct([('a', pa.int64()), ('b', pa.float64())])), ('l', pa.list_(pa.int64())), ('lf', pa.list_(pa.float64()))]
@@ -65,6 +69,9 @@ def make_rows(count, kind, salt):
         return [{'id': i} for i in range(count)]
     if kind == 'single_str':
         return [{'id': 'r%d' % i} for i in range(count)]
+    if kind == 'names':
+        return [{'id': i, 'unit price': i + 0.5, 'unit_price': -1.0 * i, 'a,b': 'r%d' % i, 'x=y': STRS[i % len(STRS)], '(n)': 7 * i,
+                 'tab\tname': 'same'} for i in range(count)]
     rows = []
     for i in range(count):
         h = (i * 2654435761 + salt * 40503) & 0xffffffff
@@ -99,7 +106,7 @@ def gen_case(rng, tier):
     count = min(count, limit)
     return {'count': count, 'n': n, 'b': rng.choice([1, 2, 3, 10, 100, 1024, 2000, max(1, count), max(1, n)]),
             'rg': rng.choice([None, None, None, 1, 2, 7, 100, 500]), 'compression': rng.choice(CODECS),
-            'schema': rng.choice(['flat', 'flat', 'nested', 'nested', 'single_int', 'single_str']), 'via': rng.choice(['path', 'path', 'fileobj', 'open_obj']),
+            'schema': rng.choice(['flat', 'flat', 'nested', 'nested', 'single_int', 'single_str', 'names']), 'via': rng.choice(['path', 'path', 'fileobj', 'open_obj']),
             'resub': rng.random() < 0.4, 'salt': rng.randint(0, 1000), 'dump_twice': rng.random() < 0.3,
             'perm': rng.random() < 0.25, 'no_rewind': rng.random() < 0.3}
 
@@ -119,6 +126,10 @@ def cases(tier, rng):
             c = dict(base)
             c.update(count=count, n=n, schema=kind)
             yield c
+    for count, n in [(0, 4), (1, 4), (5, 2), (9, 4)]:
+        c = dict(base)
+        c.update(count=count, n=n, schema='names')
+        yield c
     # the dump observable subscribed twice (a periodic re-export to the same path): the file holds the rows once
     for count, n in [(3, 8), (7, 3), (4, 2), (0, 4)]:
         c = dict(base)
